@@ -62,7 +62,7 @@ class C06(Prop):
     floors = {'quick': (200, 40), 'thorough': (4000, 800)}
     must_reach = []
     quick_cases = 2000
-    thorough_cases = 200000
+    thorough_cases = 1500000
     shrink_data = False
 
     def gen(self, rng, ctx):
